@@ -49,6 +49,9 @@ type gatedWrite struct {
 func (c *scriptConn) Read(p []byte) (int, error) {
 	c.mu.Lock()
 	defer c.mu.Unlock()
+	if c.closed {
+		return 0, errors.New("use of closed network connection (scripted)")
+	}
 	if len(c.pending) == 0 {
 		if len(c.evs) == 0 {
 			c.blocked = true
@@ -140,17 +143,19 @@ func runConn(id string, toks []string) (res string) {
 				}
 				if err == errBlocked {
 					out = append(out, "b")
+					break
 				} else if err.Error() == "EOF" {
 					out = append(out, "e:eof")
-				} else {
-					out = append(out, "e:err")
+					break
 				}
-				break
+				// a failed frame (or a read on the socket the read path has closed): the caller keeps reading,
+				// as net/http's buffered reader does after an error it considers temporary
+				out = append(out, "e:err")
+				continue
 			}
-			if sc.closed {
-				// DecryptedRead closes the socket on a failure and returns the (nil) error of Close
-				out = append(out, "e:closed")
-				break
+			if m == 0 && n > 0 {
+				out = append(out, "z") // (0, nil) for a non-empty buffer
+				continue
 			}
 			out = append(out, "d:"+hx(buf[:m]))
 		}
